@@ -134,6 +134,20 @@ Built build(int base_kind, const std::vector<int>& choice, bool v2, int n)
             e.put(b.snap);
             b.must_succeed = b.must_succeed && e.must_succeed;
             b.desc += f.name + "=" + e.desc + "; ";
+            // "never silently corrupted": if the write is accepted, the value must read back as given (lists padded to eight slots);
+            // a cue or loop whose offset is the reserved -1 may read back as an empty slot; waveforms are derived data
+            if (f.name != "waveform")
+            {
+                dj::track_snapshot padded = b.snap;
+                if (padded.hot_cues.size() < 8) padded.hot_cues.resize(8);
+                if (padded.loops.size() < 8) padded.loops.resize(8);
+                std::vector<std::string> allowed = {facts_of(snapshot_str(padded), "snapshot.")[f.facts[0]]};
+                dj::track_snapshot alt = padded;
+                for (auto& c : alt.hot_cues) if (c && c->sample_offset == -1) c.reset();
+                for (auto& l : alt.loops) if (l && l->start_sample_offset == -1) l.reset();
+                allowed.push_back(facts_of(snapshot_str(alt), "snapshot.")[f.facts[0]]);
+                b.expect[f.facts[0]] = allowed;
+            }
         }
     }
     // a path without an extension cannot be typed by 2.x; a snapshot without a path cannot be written at all
